@@ -20,7 +20,11 @@ pub const SOURCES: &[&str] = &[
     "interpreter/mod.rs",
 ];
 
-pub const DEFAULT_REPO: &str = "/repo";
+/// Root of the repository under test: `VERIF_REPO_ROOT` (set by ./mutcheck to its private copy),
+/// default `/repo`.
+pub fn default_repo() -> String {
+    std::env::var("VERIF_REPO_ROOT").unwrap_or_else(|_| "/repo".to_string())
+}
 pub const DEFAULT_OUT: &str = concat!(env!("CARGO_MANIFEST_DIR"), "/../lean/TrustfallModel/Generated/TypeDefs.lean");
 
 #[derive(Debug, Clone, PartialEq)]
@@ -259,9 +263,9 @@ pub fn generate(repo: &str, out: &str) -> Result<usize, String> {
 #[allow(dead_code)]
 fn main() {
     let args: Vec<String> = std::env::args().collect();
-    let repo = args.get(1).map(|s| s.as_str()).unwrap_or(DEFAULT_REPO);
+    let repo = args.get(1).cloned().unwrap_or_else(default_repo);
     let out = args.get(2).map(|s| s.as_str()).unwrap_or(DEFAULT_OUT);
-    match generate(repo, out) {
+    match generate(&repo, out) {
         Ok(n) => println!("autotraits_gen: {n} type definitions -> {out}"),
         Err(e) => {
             eprintln!("autotraits_gen: {e}");
